@@ -477,9 +477,17 @@ def strip_transparent(e):
         return ("field", ("variant", side, "Some"), "0")
     if e[0] == "field" and e[2] == "0" and e[1][0] == "variant" and e[1][2] == "Some" and e[1][1][0] == "call" and e[1][1][1] == FILTER and len(e[1][1][2]) == 2:
         return ("field", ("variant", strip_transparent(e[1][1][2][0]), "Some"), "0")
+    # the payload of `x.map(f)` with a fn item f is f(payload of x)
+    if e[0] == "field" and e[2] == "0" and e[1][0] == "variant" and e[1][2] == "Some" and e[1][1][0] == "call" and e[1][1][1] == OMAP and len(e[1][1][2]) == 2 \
+            and e[1][1][2][1][0] == "fnptr":
+        fn = e[1][1][2][1]
+        return strip_transparent(("call", fn[1], (("field", ("variant", e[1][1][2][0], "Some"), "0"),), fn[2] if len(fn) > 2 else ()))
     return tuple(strip_transparent(x) if isinstance(x, tuple) else x for x in e)
 
 
+OMAP = "core::option::Option::<T>::map"
+SOME_PRESERVING = (OMAP, "core::option::Option::<T>::cloned", "core::option::Option::<&T>::cloned", "core::option::Option::<&T>::copied", "core::option::Option::<T>::inspect",
+                   "core::option::Option::<T>::as_deref", "core::option::Option::<T>::as_deref_mut")
 ZIP = "core::option::Option::<T>::zip"
 FILTER = "core::option::Option::<T>::filter"
 
@@ -534,6 +542,42 @@ def _closure_dnf(crate, key):
     if not true or len(true) > 4 or any(len(d) > 4 for d in true):
         return None
     return [tuple(sorted(d, key=repr)) for d in sorted(true, key=repr)]
+
+
+_HRA = {}
+
+
+def _helper_result_alternatives(crate, a):
+    """`helper(x).is_some()` / `.is_ok()` for a private, loop-free helper of the crate whose every
+    return is a visible `Some/None/Ok/Err`: the conditions of the cases that return that variant"""
+    e, v = a
+    if e[0] != "call" or e[1] not in ("core::option::Option::<T>::is_some", "core::result::Result::<T, E>::is_ok") or not isinstance(v, bool) or not e[2]:
+        return None
+    inner = e[2][0]
+    if inner[0] != "call" or not isinstance(inner[1], str) or not (inner[1].startswith("darling_core::") or inner[1].startswith("<darling_core::")):
+        return None
+    key = (id(crate), repr(inner), v)
+    if key in _HRA:
+        return _HRA[key]
+    _HRA[key] = None
+    from . import resalg as _ra
+    try:
+        rows = _ra.Algebra(crate).inline_private(inner[1], inner[2], inner[3] if len(inner) > 3 else ())
+    except RuntimeError:
+        rows = None
+    if not rows or len(rows) > 6:
+        return None
+    yes = (_ra.SOME, _ra.OK)
+    allv = (_ra.SOME, _ra.NONE, _ra.OK, _ra.ERR)
+    if not all(hv[0] == "agg" and hv[1] in allv for _, hv in rows):
+        return None
+    out = []
+    for conds, hv in rows:
+        if (hv[1] in yes) == v:
+            out.append(tuple((x, y) for (x, y) in conds if x[0] not in ("pc-of", "effect")))
+    res = out or None
+    _HRA[key] = res
+    return res
 
 
 def _option_combinator_alternatives(crate, a):
@@ -663,6 +707,10 @@ def normalise_atom(expr, value):
                 expr = ("call", "core::result::Result::<T, E>::is_ok", expr[2], expr[3] if len(expr) > 3 else ())
                 value = not value
                 continue
+            if c == "core::option::Option::<T>::is_some" and isinstance(value, bool) and expr[2] and expr[2][0][0] == "call" and expr[2][0][1] in SOME_PRESERVING and expr[2][0][2]:
+                # `x.map(f).is_some()` is `x.is_some()`
+                expr = ("call", c, (strip_transparent(expr[2][0][2][0]),), ())
+                continue
             if c == "core::option::Option::<T>::is_some" and isinstance(value, bool) and expr[2] and expr[2][0][0] == "call" and expr[2][0][1] in FIRST_CALLS:
                 # `x.first().is_some()` is `x.len() != 0`
                 inner = expr[2][0]
@@ -721,8 +769,8 @@ def normalise_atom(expr, value):
             if isinstance(value, str):
                 if value in OPTION_LIKE:
                     expr, value = ("call", "core::option::Option::<T>::is_some", (inner,), ()), OPTION_LIKE[value]
-                    if inner[0] == "call" and inner[1] in FIRST_CALLS:
-                        continue        # `match x.first() { Some(..) .. }` is a test of `x.len()`
+                    if inner[0] == "call" and (inner[1] in FIRST_CALLS or inner[1] in SOME_PRESERVING):
+                        continue        # `match x.first() { Some(..) .. }` is a test of `x.len()`; `match x.map(f)` of x
                     return expr, value
                 if value in RESULT_LIKE:
                     return ("call", "core::result::Result::<T, E>::is_ok", (inner,), ()), RESULT_LIKE[value]
@@ -1206,6 +1254,9 @@ def predicate_alternatives(crate, a, any_vis=False):
     if e[0] != "call" or isinstance(e[1], tuple) or not isinstance(v, bool):
         return None
     comb = _option_combinator_alternatives(crate, a)
+    if comb is not None:
+        return comb
+    comb = _helper_result_alternatives(crate, a)
     if comb is not None:
         return comb
     summ = predicate_dnf(crate, e[1], any_vis)
